@@ -10,6 +10,8 @@ import c03
 import c05
 import c04_units
 
+import sgrep
+
 TITLE = "Locations"
 LEVEL_TEXT = (
     "the comment stripper preserves byte offsets (equivalence with the reference lexer, byte for byte, for all strings); its error"
@@ -125,12 +127,16 @@ def rule_original_text(ctx):
     of = find_fn(LIB, "open_file")
     if of is not None:
         t = render(of["body"]).replace(" ", "")
-        ctx.check(R, "open_file/contents-unmodified", "read_to_string(file_path).map(|contents|(path_str.clone(),contents))" in t, t[:200], site(LIB, of))
+        pvo = sgrep.params(of)
+        oko = bool(pvo) and sgrep.has(of["body"], "read_to_string(__p).map(|__c| (__s, __c))", sgrep.lets(of["body"]), {"__p": pvo[0]})
+        ctx.check(R, "open_file/contents-unmodified", oko, t[:200], site(LIB, of))
     # parser_logic::parse_file feeds preprocess(src, file_id) of the same src
     pl = find_fn(PL, "parse_file")
     if pl is not None:
         t = render(pl["body"]).replace(" ", "")
-        ctx.check(R, "parser_logic::parse_file/strips-the-same-text", ".parse(&preprocess(src,file_id)?)" in t, t[:120], site(PL, pl))
+        pvl = sgrep.params(pl)
+        okp = len(pvl) == 2 and sgrep.has(pl["body"], "__parser.parse(preprocess(__s, __f)?)", sgrep.lets(pl["body"]), {"__s": pvl[0], "__f": pvl[1]})
+        ctx.check(R, "parser_logic::parse_file/strips-the-same-text", okp, t[:120], site(PL, pl))
 
 
 def rule_grammar_spans(ctx):
@@ -171,7 +177,13 @@ def rule_grammar_spans(ctx):
     mn = find_fn(ASTF, "new", "Meta")
     if mn is not None:
         t = render(mn["body"]).replace(" ", "")
-        ctx.check(R, "ast::Meta::new/location-is-start..end", "location:start..end" in t and "file_id:Option::None" in t, t[:160], site(ASTF, mn))
+        pvm = sgrep.params(mn)
+        st_ = [x for x in walk(mn["body"]) if x["k"] == "Struct" and last(x["path"]) in ("Meta", "Self")]
+        okm = False
+        if len(st_) == 1 and len(pvm) == 2:
+            fl = {x["name"]: render(strip(x["e"])).replace(" ", "") for x in st_[0]["fields"]}
+            okm = fl.get("location") == "%s..%s" % (pvm[0], pvm[1]) and fl.get("file_id") in ("Option::None", "None")
+        ctx.check(R, "ast::Meta::new/location-is-start..end", okm, t[:160], site(ASTF, mn))
 
 
 def rule_fill(ctx):
@@ -232,7 +244,8 @@ def rule_fill(ctx):
         f = find_fn(file, "new", nm)
         if f is not None:
             t = render(f["body"]).replace(" ", "")
-            ctx.check(R, "%s::new/body-filled" % nm, "body.fill(file_id,elem_id)" in t, t[:200], site(file, f))
+            fills = [m for m in method_calls(f["body"], "fill")]
+            ctx.check(R, "%s::new/body-filled" % nm, len(fills) >= 1 and not (conditions_to(f["body"], fills[0]) or []), t[:200], site(file, f))
 
 
 def rule_synth(ctx):
